@@ -7,6 +7,7 @@ CONSTANTS
   TildeOrderZero = FALSE
   StaleKey = FALSE
   NoResplit = FALSE
+  PartialOnReject = FALSE
   Boundary = TRUE
   MaxFull = 6
   Epochs <- E_two
@@ -17,6 +18,7 @@ CONSTANTS
   Triples = FALSE
   EmitStride = 0
   EmitOffset = 0
+  CheckPos = FALSE
 SPECIFICATION OSpec
 INVARIANT KeyFresh
 INVARIANT Agree
